@@ -110,6 +110,7 @@ pub fn weights(p: Prop) -> [u8; NOPS] {
         Prop::C12 => [14, 10, 10, 1, 0, 3, 0, 0, 0, 5, 4, 1, 0, 1, 3, 3, 10, 1, 0, 0, 0, 0, 0, 0, 0, 4],
         Prop::C13 => [12, 3, 3, 0, 1, 0, 0, 0, 0, 7, 3, 2, 0, 0, 0, 0, 1, 0, 0, 16, 3, 0, 0, 0, 0, 0],
         Prop::C15 => [10, 4, 3, 2, 2, 1, 0, 0, 1, 6, 3, 3, 1, 2, 1, 2, 3, 12, 0, 0, 0, 0, 0, 3, 0, 0],
+        Prop::C16 => [6, 2, 2, 1, 0, 1, 0, 0, 0, 3, 1, 1, 0, 0, 0, 0, 0, 0, 0, 0, 0, 0, 0, 0, 0, 22],
         Prop::C17 => [10, 4, 4, 2, 2, 2, 2, 2, 2, 6, 4, 4, 1, 2, 2, 2, 8, 2, 0, 8, 0, 0, 0, 3, 0, 3],
         Prop::C18 => [16, 3, 3, 1, 1, 0, 0, 0, 0, 7, 3, 2, 1, 1, 0, 0, 2, 0, 0, 6, 0, 0, 0, 0, 0, 0],
         Prop::C19 => [12, 3, 3, 0, 0, 0, 0, 0, 0, 7, 3, 2, 0, 4, 8, 6, 1, 1, 0, 0, 0, 0, 10, 0, 0, 0],
